@@ -572,6 +572,35 @@ inductive CollectPath where
 /-- `take_result` then `resume_unwind_io`, on every path -/
 def collect (_path : CollectPath) (c : Carried) : Seen := resumeUnwindIo c
 
+/-! ### the worker's retirement deadline
+
+`worker` hands the configured idle timeout unchanged to `receiver.recv_timeout(timeout)`; flume computes the
+deadline as `Instant::now().checked_add(timeout)`: the addition is *checked*, an overflow (e.g.
+`Duration::MAX`, `u64::MAX / 2` seconds) means "no deadline" — the worker never retires, nothing panics.
+Durations and instants are counted in nanoseconds. -/
+
+/-- largest representable `Instant` offset (the model only needs that one exists) -/
+def instantMax : Nat := 2 ^ 64 * 1000000000
+
+/-- `Instant::checked_add` -/
+def checkedDeadline (now timeout : Nat) : Option Nat :=
+  if now + timeout < instantMax then some (now + timeout) else none
+
+/-- what a new pool thread does before its first `recv`: count itself, then enter `recv_timeout` with the
+checked deadline; `panic` would be a thread that dies before receiving (it is never produced) -/
+inductive Prologue where
+  | enterRecv (deadline : Option Nat)
+  | panic
+  deriving DecidableEq, Repr
+
+def workerPrologue (now timeout : Nat) : Prologue := .enterRecv (checkedDeadline now timeout)
+
+/-- the idle timer of a parked worker can fire at `t` -/
+def timerMayFire (deadline : Option Nat) (t : Nat) : Bool :=
+  match deadline with
+  | some d => decide (d ≤ t)
+  | none => false
+
 /-! ### a deterministic scheduler for the quiescent runs of the driver
 
 `internal s` = the first worker that can make a step on its own (no timer, no job body involved);
